@@ -79,11 +79,12 @@ impl WrapConfig {
             0 => 0,
             wrap_max_lines => {
                 let single_pane_width = available_terminal_width / 2;
+                // (saturating: the number of lines may be anything up to usize::MAX)
                 let add_25_percent_or_term_width =
-                    |x| x + std::cmp::max((x * 250) / 1000, single_pane_width);
+                    |x: usize| x.saturating_add(std::cmp::max(x / 4, single_pane_width));
                 std::cmp::max(
                     max_line_length,
-                    add_25_percent_or_term_width(single_pane_width * wrap_max_lines),
+                    add_25_percent_or_term_width(single_pane_width.saturating_mul(wrap_max_lines)),
                 )
             }
         }
@@ -112,7 +113,7 @@ fn adapt_wrap_max_lines_argument(arg: String) -> usize {
     } else {
         arg.parse::<usize>()
             .unwrap_or_else(|err| fatal(format!("Invalid wrap-max-lines argument: {err}")))
-            + 1
+            .saturating_add(1)
     }
 }
 
